@@ -203,6 +203,16 @@ func c46ExecRun(c *hlib.Ctx, tok []string) string {
 	var kept []int // what relabelling keeps, in push order
 	var waitDone chan struct{}
 	var waitTerm chan struct{}
+	// a popper left waiting is always released, also when the schedule is abandoned half-way
+	// (otherwise it would sit in its select for the rest of the process and confuse later ops)
+	stopWaiter := func() {
+		if waitDone != nil {
+			close(waitTerm)
+			<-waitDone
+			waitDone, waitTerm = nil, nil
+		}
+	}
+	defer stopWaiter()
 	capExceeded := false
 	checkLen := func() {
 		if q.Len() > cap {
@@ -345,10 +355,7 @@ func c46ExecRun(c *hlib.Ctx, tok []string) string {
 		}
 		checkLen()
 	}
-	if waitDone != nil {
-		close(waitTerm)
-		<-waitDone
-	}
+	stopWaiter()
 	finalLen, finalTok := q.Len(), len(r.morec)
 	answer := fmt.Sprintf("%s len=%d tok=%d", hlib.Join(r.events, ";"), finalLen, finalTok)
 
@@ -553,7 +560,7 @@ func c46GenAlerts(c *hlib.Ctx, next *int, cap int) string {
 
 func genC46(c *hlib.Ctx) {
 	r := c.R
-	n := c.N(500, 40000)
+	n := c.N(500, 6000)
 	for i := 0; i < n; i++ {
 		cap := []int{0, 1, 2, 3, 4, 5, 8}[r.Intn(7)]
 		mb := []int{1, 1, 2, 3, 10}[r.Intn(5)]
@@ -667,7 +674,7 @@ func genC46(c *hlib.Ctx) {
 		}
 	}
 	// ---- free-running stress (oracle only)
-	n = c.N(30, 1500)
+	n = c.N(30, 300)
 	for i := 0; i < n; i++ {
 		cap := []int{1, 4, 50, 10000}[r.Intn(4)]
 		mb := []int{1, 2, 7, 100}[r.Intn(4)]
